@@ -11,6 +11,19 @@ Record send_site := mkSend {
   s_done : string       (* X *)
 }.
 
+(* a write of a parser goroutine to the accumulator the merger goroutine reads *)
+Record shared_write := mkShared {
+  sw_func : string;     (* enclosing function *)
+  sw_target : string;   (* assigned expression, or method called on the accumulator *)
+  sw_guard : string     (* "once:X" (inside X.Do(func(){...}), X a *sync.Once), "none", "unknown" *)
+}.
+
+(* the protocol model lets the merger read the seeded header only after the seeding parser finished and treats
+   the seeding as one atomic step that happens once: every write is inside a sync.Once, and there is one *)
+Definition once_guarded (w : shared_write) : bool := String.eqb (String.substring 0 5 (sw_guard w)) "once:".
+Definition shared_writes_ok (l : list shared_write) : bool :=
+  match l with [] => false | _ => forallb once_guarded l end.
+
 Definition has_chan (c : string) (l : list send_site) : bool :=
   existsb (fun s => String.eqb (s_chan s) c) l.
 
